@@ -1187,6 +1187,13 @@ def run(env: Env) -> Outcome:
         if isinstance(rc, dict) and "ops" in rc and "concurrent" not in rc:
             cases.append(rc)
     cases += CORPUS
+    cdir = os.path.join(VERIF, "harness", "corpus")
+    for fn in sorted(os.listdir(cdir)) if os.path.isdir(cdir) else []:
+        if fn.startswith("c21_") and fn.endswith(".json"):
+            try:
+                cases.append(json.load(open(os.path.join(cdir, fn)))["case"])
+            except (OSError, ValueError, KeyError) as e:
+                out.notes.append(f"corpus file {fn} unreadable: {e!r}")
     ncases = env.budget(14, 300)
     length = 60 if env.tier == "quick" else 110
     for _ in range(ncases):
